@@ -1,3 +1,3 @@
 From Coq Require Import ZArith List Extraction ExtrOcamlBasic.
-From LLRP Require Import DecIR.IR DecIR.Sem DecIR.Safe.
-Extraction "model.ml" run_top classify final_cost final_alloc all_unsafe_sites all_safe safe_prog writes_b.
+From LLRP Require Import DecIR.IR DecIR.Sem DecIR.Safe DecIR.Linear.
+Extraction "model.ml" run_top classify final_cost final_alloc all_unsafe_sites all_safe safe_prog writes_b all_linear not_linear size coef.
